@@ -195,7 +195,7 @@ def run(ctx):
              ("m", [(a, ("s", a)) for a in ATOMS]),
              ("m", []), ("l", []), ("n",), ("s", b"~"), ("s", b""), ("l", [("n",), ("m", []), ("l", [])]),
              ("m", [(b"null", ("n",)), (b"~", ("s", b"null")), (b"a.b ", ("m", [(b" ", ("l", [("s", b"x\ny")]))]))])]
-    n = 400 if not thorough else 8000
+    n = 400 if not thorough else 5000
     for i in range(n):
         trees.append(gen_tree(ctx.rng, ctx.rng.randint(1, 6)))
     deep = ("s", b"leaf: ~")
@@ -257,7 +257,7 @@ def run(ctx):
     # ------------------------------------------------------------------ d: through vnacal_save / vnacal_load
     env_noleak = ctx.run_env(leak=False)        # vnacal_free / vnacal_load leaks belong to C03/C07 (D28, D37)
     env_noleak["PROP_TMP"] = ctx.tmp
-    ncal = 60 if not thorough else 1200
+    ncal = 60 if not thorough else 600
     cal_fail = 0
     for mode in ("global", "cal"):
         sub = [tree_ops(t) + [("calrt",)] for t in trees[:ncal]]
